@@ -104,7 +104,7 @@ def check(case, ctx):
         for k, (c, x) in enumerate(zip(caps, e['cues'])):
             ctx.count('stamps_compared', 2)
             ends = x['end'] if isinstance(x['end'], list) else [x['end']]
-            ok_types = all(isinstance(v, int) or (isinstance(v, float) and v == int(v)) for v in (c.start, c.end))
+            ok_types = all(isinstance(v, int) and not isinstance(v, bool) for v in (c.start, c.end))
             if c.start != x['start'] or c.end not in ends or not ok_types:
                 fails.append({'what': 'caption start/end differs from the instant the document denotes',
                               'format': fmt, 'lang': lang, 'cue': k,
